@@ -556,7 +556,11 @@ func c11Encode(p *Plan, run *Run, churnClass string) any {
 	for _, v := range schedB.fired {
 		nfired += v
 	}
-	run.Log.Add("enc A=%d B=%d fired=%d", len(bytesA), len(bytesB), nfired)
+	if d.HasMultiMap {
+		run.Log.Add("enc fired=%d", nfired) // byte lengths depend on map iteration order (no seam)
+	} else {
+		run.Log.Add("enc A=%d B=%d fired=%d", len(bytesA), len(bytesB), nfired)
+	}
 	if panB != nil {
 		run.Violation("c11/panic-under-gc", siteB, fmt.Sprintf("encoding with collections panicked where the collection-free run did not: %v", panB), nil)
 		return nil
